@@ -123,6 +123,10 @@ def main():
         "engines": [
             {"name": "tlc+conform", "path": "bin/check", "serves_properties": sorted(CLAIMED),
              "kind_free_text": "python driver: TLC (tla2tools 1.8.0) on /verif/spec/*.tla for model checking, behaviour generation and trace validation; Rust harness /verif/harness (conform) replays behaviours into / records traces from the real crate"},
+            {"name": "apalache", "path": "bin/check", "serves_properties": ["C10"],
+             "kind_free_text": "Apalache 0.58 (apalache-mc check, called from bin/check C10 via vlib.apalache): inductive invariant of the reporter bookkeeping, spec/apalache/ProgressInd.tla"},
+            {"name": "extras", "path": "bin/extra", "serves_properties": [],
+             "kind_free_text": "same machinery for behaviour beyond the listed properties (StatsUnsplit.tla: ess_from_chainstats, max_rhat); deviations are EXTRA-DEVIATION lines, never violations; not registered as checks"},
         ],
         "checks": checks,
         "notes": "Exit codes: 0 held (KNOWN-FINDING lines possible), 1 VIOLATION, 2 tool error. VERIF_SEED seeds all random drivers and TLC. known_findings.json lists recorded/fixed genuine defects.",
